@@ -40,13 +40,25 @@ func (s *Sim) arm(t *TimerState, d time.Duration) {
 	s.timers = append(s.timers, t.ent)
 }
 
+// delTimer removes element i with plain stores: the runtime's slice copy
+// helpers carry race-detector hooks of their own (also when called from a
+// package compiled without -race), and two library goroutines that each
+// stop their own timer would be reported as racing on the simulator's list.
+func delTimer(ts []*timerEnt, i int) []*timerEnt {
+	for j := i; j+1 < len(ts); j++ {
+		ts[j] = ts[j+1]
+	}
+	ts[len(ts)-1] = nil
+	return ts[:len(ts)-1]
+}
+
 func (s *Sim) disarm(t *TimerState) bool {
 	if t.ent == nil {
 		return false
 	}
 	for i, e := range s.timers {
 		if e == t.ent {
-			s.timers = append(s.timers[:i], s.timers[i+1:]...)
+			s.timers = delTimer(s.timers, i)
 			break
 		}
 	}
